@@ -10,6 +10,9 @@ Buckets: `emits-invalid-c++/<g++ message>` (accepted output that g++ rejects; at
 alone), `aborts/<assert|signal>`, `wrong-<value|zero-sign|bool|length|shape>/<option scope>` where the scope says
 which compiler options the failure depends on (all-options, optimize=O1, unbox=ALLOW+STRICT, ...),
 `rounding-mode-not-restored/at-return/<scope>`, `storage/parameter-type-cannot-hold-format-member`.
+Open known findings (`known/...` buckets; reported only by the committed witness replays that carry `known_bucket`,
+their triggers are excluded by construction in vlib/c11_gen.py and counted as `excluded:*`): float->int rounding out of
+range, FP32 dyadic literal tokens, the 8/16-bit integer operator table (+ unsigned abs), list min/max after a widening store.
 Defects found while building the check (each with a replay under replays/C11 and a patch under proposed_fixes/C11_*):
 float->int rounding out of range, both-arm rebind not hoisted, double literal tokens widening FP32 expression trees,
 callee entry rounding mode not established by compiled callers, narrow-int promotion / unsigned std::abs,
@@ -444,6 +447,8 @@ class Prepared:
         feats = set(case.get('features', ()))
         for f in sorted(feats):
             res.cls('f:' + f)
+        for k, n in sorted(case.get('excluded', {}).items()):
+            res.count(f'excluded:{k}', n)          # productions suppressed by construction (open known findings)
 
         # --- compile under every option set
         compiled = {}
@@ -650,8 +655,7 @@ class Prepared:
                 f[0] += opts
                 if r[0] == 'ok' and mm is not None:
                     f[2] = hint
-            if (res.evaluations // 13) % 97 == 0:
-                res.sample(dict(base, inputs=[enc_val_list(self.inputs[j])], expected=show_tree(self.expected[j])), nt=self.nt[j])
+            res.maybe_sample(dict(base, inputs=[enc_val_list(self.inputs[j])], expected=show_tree(self.expected[j])), nt=self.nt[j])
             for key, (opts, got, hint) in failing.items():
                 scope = describe_scope(opts, ran_opts)
                 c = dict(base, options=opts[:1], inputs=[enc_val_list(self.inputs[j])])
@@ -752,11 +756,30 @@ def run_shard(shard):
     return res
 
 
+KNOWN_BUCKETS = (
+    'known/float-to-int-out-of-range-cast',
+    'known/fp32-dyadic-literal-promotes-to-double',
+    'known/small-int-operator-table',
+    'known/list-minmax-after-widening-store',
+)
+
+
 def replay(case):
     res = Result()
     gxx = require_gxx()
     run_batch(res, [case], gxx, fp.CppCompiler().headers())
-    return [f for fl in res.failures.values() for f in fl]
+    fails = [f for fl in res.failures.values() for f in fl]
+    kb = case.get('known_bucket')
+    if kb:
+        # the committed witness of an open known finding: whatever symptom it shows is reported under that root-cause
+        # bucket (which nothing generated can land in: the triggers are excluded by construction); a pass reports nothing
+        if kb not in KNOWN_BUCKETS:
+            raise ValueError(f'unknown known_bucket {kb!r}')
+        if not fails:
+            return []
+        f = dict(fails[0], bucket=kb, note=f'witness of open known finding; symptom bucket {fails[0]["bucket"]}; {fails[0].get("note")}')
+        return [f]
+    return fails
 
 
 def selftest():
